@@ -273,7 +273,7 @@ def query_case(case):
     from saml2_tophat.s_utils import deflate_and_base64_encode
     scn = case['scn']
     signer_crypto = RSACrypto(_STATE['keys']['kA'])
-    verifier = RSACrypto(_STATE['keys']['kB'])
+    verifier = signer_crypto if scn.get('backend') == 'signer' else RSACrypto(_STATE['keys']['kB'])
     relay = RELAY[scn['relay']]
 
     def signed(msg):
@@ -315,7 +315,7 @@ def query_case(case):
         q = dict(reversed(list(q.items())))
     elif mut == 'extra_param':
         q['foo'] = 'bar'
-    cert = env.cert_b64('kA' if scn['cert'] == 'own' else 'kB')
+    cert = env.cert_b64({'own': 'kA', 'other': 'kB', 'other_expired': 'kBexp'}[scn['cert']])
     try:
         res = verify_redirect_signature(q, verifier, cert=cert)
         obs = 'true' if res else ('none' if res is None else 'false')
@@ -453,7 +453,7 @@ def main():
         shutil.rmtree(d, ignore_errors=True)
     chk.cov['rule'] = ('every behaviour of the bounded exhaustive run that signs something (sampled in the quick tier), simulated '
                       'longer behaviours (3 entities, 5 algorithms), each replayed sequentially and with one thread per entity; '
-                      'all 1 800 query-mutation scenarios; behaviours include key roll-over in place (entities built by the library from key files); random threaded executions validated by TLC')
+                      'all 3 000 query-mutation scenarios (incl. another entity's expired certificate, and the signer's own crypto object running the check); behaviours include key roll-over in place (entities built by the library from key files); random threaded executions validated by TLC')
     chk.assumptions = ['the key that really signed a URL is determined by verifying the transmitted octet string with every '
                        'certificate of the pool using `cryptography` directly (independent of the code under test)',
                        'steps are interleaved at the granularity of the API calls (obtain / sign / verify)']
